@@ -88,7 +88,7 @@ func checkC01(c *Ctx) {
 	r013(c)
 	r014(c)
 	r015(c)
-	r016(c)
+	r016n(c, "R01.6 rotation-subset-of-healthy")
 }
 
 // R01.1 health gate dominates publication.
@@ -664,8 +664,7 @@ func boundStr(v int64) string {
 }
 
 // R01.6 rotation is a subset of healthy targets; claims come from the rotation.
-func r016(c *Ctx) {
-	const rule = "R01.6 rotation-subset-of-healthy"
+func r016n(c *Ctx, rule string) {
 	c.floor(rule, 5)
 	healthyF := c.field("LoadBalancer", "healthy")
 	healthy := c.enumVal(c.server, "TargetStateHealthy")
